@@ -1,5 +1,6 @@
 (* Base/AMap.v — association maps with N keys (Go map[uint64]V), insertion order kept explicit. *)
 From KV Require Import Base.Util.
+From Coq Require Permutation.
 Local Open Scope list_scope.
 
 Section AMap.
@@ -111,6 +112,16 @@ Proof.
   rewrite <- !afind_some_keys. destruct (N.eq_dec k k') as [->|Hne].
   - rewrite afind_aset_eq. split; eauto.
   - rewrite afind_aset_neq by assumption. split; [auto | intros [H|H]; [congruence|assumption]].
+Qed.
+
+Lemma NoDup_akeys_aset k v m : NoDup (akeys m) -> NoDup (akeys (aset k v m)).
+Proof.
+  intros H. destruct (in_dec N.eq_dec k (akeys m)) as [Hin|Hn].
+  - now rewrite akeys_aset_in.
+  - rewrite akeys_aset_notin by assumption.
+    apply (Permutation.Permutation_NoDup (l := k :: akeys m)).
+    + apply Permutation.Permutation_cons_append.
+    + now constructor.
 Qed.
 
 Lemma In_akeys_adel k k' m : In k' (akeys (adel k m)) <-> k' <> k /\ In k' (akeys m).
